@@ -40,6 +40,8 @@ const REFS: [(&str, &str); 11] = [
     ("refs/tags/tree", "tag_tree"),
     ("refs/tags/blob", "blob"),
 ];
+/// valid ref name components that contain protocol separators
+const SPECIAL_NAMES: [&str; 8] = ["rel=1.0", "a=b=c", "=", "x=HEAD", "HEAD", "a@b", "a+b", "a,b"];
 const QUICK_REFS: usize = 4;
 const MAIN_REFS: usize = 7;
 /// (protocol.version, filter)
@@ -96,7 +98,8 @@ struct ServerDir(PathBuf);
 fn build_server(fx: &Fixture, c: &Case, dir: &Path) {
     util::bare_skeleton(dir, &fx.value(&c.head), Some(&fx.objects));
     for name in &c.refs {
-        let Some((_, v)) = REFS.iter().find(|(n, _)| n == name) else { vkit::machinery!("unknown ref {name} in case") };
+        // names outside the table (sub-check `names`): tags are annotated tags of c2, everything else points at c1
+        let v = REFS.iter().find(|(n, _)| n == name).map(|(_, v)| *v).unwrap_or(if name.starts_with("refs/tags/") { "tag_ann" } else { "c1" });
         util::write(&dir.join(name), fx.value(v).as_bytes());
     }
 }
@@ -180,7 +183,8 @@ fn oracle(server: &Path) -> Vec<ServerRef> {
 fn expected(server: &[ServerRef], proto: u8, filter: u8) -> Vec<String> {
     let prefixes: &[&str] = match (proto, filter) {
         (2, 1) => &["refs/heads/", "refs/tags/"],
-        (2, 2) => &["HEAD", "refs/HEAD", "refs/tags/HEAD", "refs/heads/HEAD", "refs/remotes/HEAD", "refs/remotes/HEAD/HEAD"],
+        // gix_refspec: the refspec `HEAD` has the single prefix `HEAD` (RefSpecRef::prefix)
+        (2, 2) => &["HEAD"],
         _ => &[],
     };
     let mut out = Vec::new();
@@ -256,7 +260,7 @@ pub fn run(run: &'static Run) {
     run.rule(format!(
         "server repositories: every subset of the refs {:?} x HEAD in {:?} (symref to branch / detached at commit / unborn / symref to a symref / symref to an annotated tag / detached at a tag object; \
          keys c1,c2 = commits, tag_ann = annotated tag of c2, tag_nest = tag of a tag of c1, tag_tree = tag of a tree, blob); \
-         client: (protocol.version, ref-prefix filter) in [(0,none),(1,branch+tag spec prefixes — ignored by v0/v1),(2,none),(2,prefixes of the default branch+tag specs),(2,prefixes of refspec HEAD)]; thorough adds sub-check `exotic`: base [a, ann, sym] + every non-empty subset of [symref to tag, symref to symref, tag of a tree, lightweight tag on a blob]; \
+         client: (protocol.version, ref-prefix filter) in [(0,none),(1,branch+tag spec prefixes — ignored by v0/v1),(2,none),(2,prefixes of the default branch+tag specs),(2,prefixes of refspec HEAD)]; sub-check `names` (both tiers): for each of the 8 branch names [rel=1.0, a=b=c, =, x=HEAD, HEAD, a@b, a+b, a,b]: branch alone or with an annotated tag of the same name, HEAD pointing at it or detached, all 5 client combos; thorough adds sub-check `exotic`: base [a, ann, sym] + every non-empty subset of [symref to tag, symref to symref, tag of a tree, lightweight tag on a blob]; \
          served by git-upload-pack via file://. non-trivial = at least one ref had to be reported and the reported list equals the oracle's",
         REFS[..nrefs].iter().map(|r| r.0).collect::<Vec<_>>(),
         HEADS
@@ -342,6 +346,29 @@ pub fn run(run: &'static Run) {
             }
             ok(format!("v{}/f{}/{kinds}", c.proto, c.filter))
         };
+    // ref names with characters that are separators elsewhere in the protocol ('=' in capabilities `symref=HEAD:<target>`, ' ' / ':' in v2
+    // attributes, '^{}' peel suffix, the word HEAD): as plain branch, as annotated tag (peeled line), and as the target of HEAD
+    run.sub_with(
+        "names",
+        vkit::Opts::default().chunk(128).watchdog(120.0),
+        |emit| {
+            for short in SPECIAL_NAMES {
+                for with_tag in [false, true] {
+                    for head_at_it in [true, false] {
+                        for &(proto, filter) in &COMBOS {
+                            let mut refs = vec![format!("refs/heads/{short}")];
+                            if with_tag {
+                                refs.push(format!("refs/tags/{short}"));
+                            }
+                            let head = if head_at_it { format!("ref: refs/heads/{short}") } else { "c1".to_string() };
+                            emit(Case { refs, head, proto, filter });
+                        }
+                    }
+                }
+            }
+        },
+        &eval,
+    );
     run.sub_with(
         "advertisement",
         vkit::Opts::default().chunk(128).watchdog(120.0),
@@ -360,6 +387,7 @@ pub fn run(run: &'static Run) {
         },
         &eval,
     );
+    run.require("special ref names were explored as HEAD targets under v0/v1", run.sub_evaluations("names") > 0);
     if !run.quick() {
         // rarer shapes on top of a fixed base: symref to a tag, symref chain, tag of a tree, lightweight tag on a blob
         run.sub_with(
